@@ -119,6 +119,40 @@ func cliDiffTrees(n int) []string {
 	return out
 }
 
+// cliDiffPairs: for commands that process every tree of the input file, the same command line on a file holding two
+// different trees must write the two results one after the other (per-tree state must not leak from one tree to the next).
+// Two single-tree cases with identical arguments (file "t.nw") are merged into one two-tree case.
+func cliDiffPairs(ds []cliDiff, every int) []cliDiff {
+	byArgs := map[string][]int{}
+	var order []string
+	for i, d := range ds {
+		if len(d.files) != 1 || d.files["t.nw"] == "" {
+			continue
+		}
+		k := d.fam + " " + strings.Join(d.args, " ")
+		if _, ok := byArgs[k]; !ok {
+			order = append(order, k)
+		}
+		byArgs[k] = append(byArgs[k], i)
+	}
+	var out []cliDiff
+	for _, k := range order {
+		idx := byArgs[k]
+		for j := 0; j+1 < len(idx); j += every {
+			a, b := ds[idx[j]], ds[idx[j+1]]
+			out = append(out, cliDiff{a.prop, a.fam + "-two-trees", a.args, map[string]string{"t.nw": a.files["t.nw"] + b.files["t.nw"]}, a.param + " on each of the two trees", func() (string, bool) {
+				o1, e1 := a.lib()
+				o2, e2 := b.lib()
+				if e1 || e2 {
+					return "", true
+				}
+				return o1 + o2, false
+			}})
+		}
+	}
+	return out
+}
+
 func cliDiffRun(c *Ctx, ds []cliDiff) {
 	for _, d := range ds {
 		if c.TimeUp() {
@@ -616,8 +650,18 @@ func cliDiffC15(quick bool) []cliDiff {
 }
 
 func init() {
-	addExtra("C07", func(c *Ctx) { defer cliCleanup(); cliDiffRun(c, cliDiffC07(c.Quick())) })
-	addExtra("C05", func(c *Ctx) { defer cliCleanup(); cliDiffRun(c, cliDiffC05(c.Quick())) })
+	addExtra("C07", func(c *Ctx) {
+		defer cliCleanup()
+		ds := cliDiffC07(c.Quick())
+		cliDiffRun(c, ds)
+		cliDiffRun(c, cliDiffPairs(ds, 3))
+	})
+	addExtra("C05", func(c *Ctx) {
+		defer cliCleanup()
+		ds := cliDiffC05(c.Quick())
+		cliDiffRun(c, ds)
+		cliDiffRun(c, cliDiffPairs(ds, 3))
+	})
 	addExtra("C09", func(c *Ctx) { defer cliCleanup(); cliDiffRun(c, cliDiffC09(c.Quick())) })
 	addExtra("C10", func(c *Ctx) { defer cliCleanup(); cliDiffRun(c, cliDiffC10(c.Quick())) })
 	addExtra("C08", func(c *Ctx) { defer cliCleanup(); cliDiffRun(c, cliDiffC08(c.Quick())) })
